@@ -216,6 +216,9 @@ def check(rec, kind, idx, rng, tier):
         # large integer ids that differ by one: integers are distinct values whatever their magnitude
         a = (a.astype('int64') + int(rng.choice([100000, 3000000, 2 ** 30]))).astype(dt)
         skind += '+bigint'
+    if rng.random() < 0.08:
+        # unsigned 64-bit ids at the top of the range
+        dt = 'uint64'; a = (a.astype('int64') - a.astype('int64').min()).astype('uint64') + np.uint64(2 ** 64 - 8); skind += '+uint64_top'
     mask = None
     if rng.random() < 0.5:
         mask = rng.random((H, W)) < float(rng.choice([0.5, 0.8, 0.95]))
